@@ -46,6 +46,9 @@ func vCornerOps() []vCorner {
 		{q: `query($v: Int) { search(meta: {k: $v}) }`, vars: map[string]interface{}{"v": 1}},
 		{q: `{ search(meta: [1, {a: [2]}]) }`},
 		{q: `query($v: JSON) { search(meta: $v) }`, vars: map[string]interface{}{"v": []interface{}{1, "x"}}},
+		// very deep selections (GraphQL sets no limit): 8 and 70 levels in one step
+		{q: vDeep(8)},
+		{q: vDeep(70)},
 		// documents without any operation (a comment, blanks, commas)
 		{q: `# nothing`},
 		{q: ` `},
@@ -60,10 +63,25 @@ func vCornerOps() []vCorner {
 	}
 }
 
+// vDeep: a selection nested n levels deep through a self-referencing type (one plan step)
+func vDeep(n int) string {
+	q := "{ tom { "
+	for i := 0; i < n; i++ {
+		q += "twin { "
+	}
+	q += "name toy"
+	for i := 0; i < n; i++ {
+		q += " }"
+	}
+	return q + " } }"
+}
+
 func VerifHandlerCorners() {
 	vK = 1
 	vMinLen = 1
 	w := vAbstractWorld()
+	w.roots["Query.tom"] = vRef{"Cat", "c1"}
+	w.ents["c1"]["twin"] = vRef{"Cat", "c1"}
 	// with the plain planner, or with the caching planner (then every operation is sent twice: the
 	// second time it is served from the cache, and the request after it is planned afresh)
 	cached := verifChoice("planner", 2) == 1
